@@ -55,6 +55,8 @@ var (
 	ErrAmfTooShort    = errors.New("lal.rtmp: too short to unmarshal amf0 data")
 	ErrAmfNotExist    = errors.New("lal.rtmp: not exist")
 
+	ErrAmfNestingTooDeep = errors.New("lal.rtmp: amf0 containers nested too deep")
+
 	ErrRtmpShortBuffer   = errors.New("lal.rtmp: buffer too short")
 	ErrRtmpUnexpectedMsg = errors.New("lal.rtmp: unexpected msg")
 )
